@@ -25,6 +25,7 @@ CONSTANTS
   PatChoices,   \* set of pattern sequences usable with -i
   SFChoices,    \* set of path sets usable with -sf
   Ops,          \* enabled operation kinds
+  InitCreates,  \* sequence of roots at which `create` has already run when the exploration starts
   MaxGens,      \* bound on the total number of generations (state constraint)
   MaxOps,       \* bound on behaviour length (export configs)
   KeepSnap      \* keep per-generation tree snapshots (needed by verify -dh only)
@@ -37,13 +38,24 @@ NoOb   == [exit |-> 0, internal |-> FALSE, missing |-> {}, mismatch |-> {}, new 
 NoLast == [op |-> NoOp, ob |-> NoOb, pre |-> <<>>, sealed |-> <<>>, ign |-> {}]
 NoFlat == [src |-> NoPath, files |-> <<>>, pats |-> <<>>, disk |-> <<>>]
 
+\* The exploration may start from histories built by a fixed prefix of creates (deep nesting, long
+\* histories): the prefix is part of every exported behaviour, so the replay executes it as well.
+InitF == CHOOSE F \in FmtChoices : \A G \in FmtChoices : Cardinality(F) <= Cardinality(G)
+InitOp(i) == [op |-> "create", R |-> InitCreates[i], F |-> InitF, n |-> FALSE, dr |-> FALSE, P |-> <<>>]
+RECURSIVE InitState(_, _, _)
+InitState(i, hs, sl) ==
+  IF i > Len(InitCreates) THEN [hist |-> hs, sealed |-> sl]
+  ELSE LET r == CreateResult(hs, InitDisk, InitCreates[i], InitF, FALSE, FALSE, <<>>)
+           hs2 == [h \in DOMAIN hs |-> IF h \in DOMAIN r.gens
+                                        THEN Append(hs[h], IF KeepSnap THEN r.gens[h] ELSE [r.gens[h] EXCEPT !.snap = <<>>])
+                                        ELSE hs[h]]
+       IN InitState(i + 1, hs2, SealedNext(sl, InitDisk, DOMAIN r.gens, InitOp(i), r.exit))
 Init ==
   /\ disk = InitDisk
-  /\ hist = [h \in CmdRoots |-> <<>>]
-  /\ sealed = <<>>
+  /\ LET st == InitState(1, [h \in CmdRoots |-> <<>>], <<>>) IN hist = st.hist /\ sealed = st.sealed
   /\ flat = NoFlat
   /\ last = NoLast
-  /\ behav = <<>>
+  /\ behav = [i \in 1..Len(InitCreates) |-> InitOp(i)]
 
 Log(o) == behav' = Append(behav, o)
 TotalGens == LET RECURSIVE S(_) S(Q) == IF Q = {} THEN 0 ELSE LET h == CHOOSE x \in Q : TRUE IN Len(hist[h]) + S(Q \ {h}) IN S(CmdRoots)
